@@ -4,7 +4,7 @@
     EVAL of the cached source (in database 0 only), KEYS / ARGV bytes, the sandbox tables. *)
 From Ferrous Require Import Base.Bytes Generated Model.Resp Model.Types Model.Glob Model.Utf8 Model.Strings
   Model.Lists Model.ZSets Model.Streams Model.Scan Model.Exec Model.Lua Model.Server Model.Conn Model.RunBase
-  Model.RunSrv Model.RunLua Proofs.BytesFacts Proofs.RespFacts.
+  Model.RunSrv Model.RunLua Proofs.BytesFacts Proofs.RespFacts Proofs.ExecFacts.
 Open Scope Z_scope.
 
 (** ---- UTF-8 ---- *)
@@ -223,4 +223,42 @@ Theorem evalsha_eq_eval t s c ca nm sha nk rest src :
 Proof.
   intros Hn Hv Hc. cbv zeta. unfold h_evalsha, str_arg. rewrite Hv, Hc. unfold evalsha_db.
   destruct (normal_command t s c 0 _ None) as [r s1]. repeat split.
+Qed.
+
+(** ---- a script that calls one catalogue command = the direct command, converted ---- *)
+Lemma marshal_strs en l : forallb utf8_valid l = true -> marshal_args (map (eval en) (map EStr l)) = Some l.
+Proof.
+  induction l as [|a r IH]; intros Hv; [reflexivity|].
+  cbn [forallb] in Hv. apply andb_prop in Hv. destruct Hv as [Ha Hr].
+  cbn [map eval marshal_args marshal_arg]. now rewrite Ha, IH.
+Qed.
+Lemma catalogue_not_blocked : forallb (fun n => negb (blocked n)) Exec.catalogue = true.
+Proof. vm_compute. reflexivity. Qed.
+Lemma in_catalogue_not_blocked n : In n Exec.catalogue -> blocked n = false.
+Proof.
+  intros H. pose proof catalogue_not_blocked as G. rewrite forallb_forall in G.
+  specialize (G n H). now destruct (blocked n).
+Qed.
+
+Definition single_call (pc : bool) (l : list bytes) : script :=
+  {| s_body := [SCall pc (map EStr l)]; s_ret := RVal (ERes 1) |}.
+
+(** redis.call / redis.pcall of a catalogue command with literal arguments, its result
+    returned: the dataset effect is that of the directly sent command, the reply is the
+    direct reply pushed through the two conversions (an error: abort under call, nil under pcall) *)
+Theorem call_same_as_direct now d keys argv pc nm args r d' :
+  forallb utf8_valid (nm :: args) = true ->
+  In (upper nm) Exec.catalogue ->
+  ExecFacts.known now d (upper nm) args = false ->
+  exec_db now d (upper nm) (ExecFacts.bulks (nm :: args)) None = Some (r, d') ->
+  run_script now d keys argv (single_call pc (nm :: args)) =
+    (match resp_to_lua pc r with CVal v => lua_to_resp v | CErr => r_err end, d').
+Proof.
+  intros Hv Hin Hk Hd.
+  pose proof (ExecFacts.parity now d nm args Hv Hin Hk) as P. rewrite Hd in P. inversion P as [P'].
+  unfold run_script, single_call. cbn [s_body s_ret run_body].
+  unfold call_cmd. rewrite (marshal_strs _ _ Hv). rewrite (in_catalogue_not_blocked _ Hin).
+  unfold ExecFacts.bulks in P'. cbn [map] in P' |- *. rewrite P'.
+  destruct (resp_to_lua pc r) as [v|]; [|reflexivity].
+  cbn [app eval e_res nth1]. reflexivity.
 Qed.
